@@ -63,6 +63,7 @@ type Engine struct {
 	heapIdOf      map[int]*Term // array term id -> heap-id constant
 	autoInl       map[*FuncInfo]bool
 	mapTypesCache []*types.Map
+	ambiguous     map[string]bool     // owner.field pairs whose nested struct fields are keyed with a path qualifier (values.go)
 	globalsAlloc  map[*types.Var]bool // package-level variables initialised by an allocation (new / &T{})
 }
 
@@ -210,6 +211,7 @@ type fctx struct {
 	autoInline    int
 	preParamAlloc *Term // allocation frontier before the parameters were bound (boxed parameters live above it)
 	inPeel        int
+	litDone       map[*ast.FuncLit]bool
 	localAddr     map[int]bool  // addresses of boxed local variables (by term id)
 	exitExempt    map[int]*Term // object address (term id) -> condition under which its invariant may be violated at this return
 	madeSlices    map[int]bool  // base addresses of slices allocated with make() in this frame (by term id)
